@@ -205,7 +205,7 @@ func lit(s string) *bt.Rx { return &bt.Rx{K: "lit", Lit: bt.BS(s)} }
 var c03Filters = []*bt.Filter{
 	nil, nil,
 	{K: "block", Flag: true},
-	{K: "rowkey", Rx: &bt.Rx{K: "cat", Subs: []bt.Rx{*lit("a"), {K: "star", Subs: []bt.Rx{{K: "anyc"}}}}}},  // a\C*
+	{K: "rowkey", Rx: &bt.Rx{K: "cat", Subs: []bt.Rx{*lit("a"), {K: "star", Subs: []bt.Rx{{K: "anyc"}}}}}},    // a\C*
 	{K: "rowkey", Rx: &bt.Rx{K: "cat", Subs: []bt.Rx{{K: "star", Subs: []bt.Rx{{K: "anyc"}}}, *lit("\x00")}}}, // \C*\x00
 	{K: "value", Rx: lit("v1")},
 	{K: "qual", Rx: lit("q0")},
